@@ -6,6 +6,7 @@ set -o pipefail
 build_demo() { make -C $WT >/dev/null 2>&1 && gcc -std=gnu99 -w -I $WT/include $DEMO/demo.c $WT/libCello.a -lpthread -lm -o $DEMO/demo 2>&1 | tail -3; }
 echo "--- suite with change:"; (cd $WT && timeout 300 make check 2>&1 | grep -E "Tests " | sed 's/\x1b\[[0-9;]*m//g')
 echo "--- demo with change:"; build_demo; timeout 120 $DEMO/demo >/dev/null 2>&1; echo "exit=$?"
-git -C $WT stash -q; echo "--- demo without change:"; build_demo; timeout 120 $DEMO/demo >/dev/null 2>&1; echo "exit=$?"; git -C $WT stash pop -q
+# (git stash is shared between worktrees: never use it here)
+git -C $WT diff > $DEMO/.cur.diff; git -C $WT apply -R $DEMO/.cur.diff; echo "--- demo without change:"; build_demo; timeout 120 $DEMO/demo >/dev/null 2>&1; echo "exit=$?"; git -C $WT apply $DEMO/.cur.diff; rm -f $DEMO/.cur.diff
 make -C $WT >/dev/null 2>&1
 for c in $CHECKS; do echo "--- bin/check $c quick against the change:"; (cd /verif && CELLO_REPO=$WT timeout 900 bin/check $c quick 2>&1 | grep -E "VIOLATION|KNOWN|ERROR|held|VIOLATED" | head -4); done
